@@ -155,7 +155,9 @@ impl Package {
                     }
                     std::os::unix::fs::symlink(&file.metadata.linkto, &file_path)?;
                 }
-                _ => unreachable!("Encountered an unknown or invalid FileMode"),
+                FileMode::Invalid { raw_mode, reason } => {
+                    return Err(Error::InvalidFileMode { raw_mode, reason });
+                }
             }
         }
 
